@@ -30,12 +30,14 @@ ASSUMPTIONS = [
 ]
 
 LOG = []
+ALL = []     # every delivery since the current world was built (never cleared by probes)
 
 
 def _log(self, event, hid):
     eid = getattr(event, 'eid', None)
     if eid is not None:
         LOG.append((eid, self.label, hid))
+        ALL.append((eid, self.label, hid))
 
 
 # ---- handler menu ----------------------------------------------------------------------------
@@ -323,8 +325,9 @@ class World:
 
 
 class HistModel(e1_history.Model):
-    def __init__(self, n):
+    def __init__(self, n, fireq=False):
         self.n = n
+        self.fireq = fireq     # also explore "fire without flush" (at most one per history)
 
     def ghost(self, hist):
         g = Ghost(self.n)
@@ -337,6 +340,9 @@ class HistModel(e1_history.Model):
         ops = []
         for x in range(self.n):
             ops.append(('probe', x))
+        if self.fireq and not any(o[0] == 'fireq' for o in hist):
+            for x in range(self.n):
+                ops.append(('fireq', x))      # fire without flushing: dispatched by whoever flushes the holding root next
         for x in range(self.n):
             ops.append(('rem', x) if g.dyn[x] else ('add', x))
         for x in range(self.n):
@@ -361,7 +367,11 @@ class HistModel(e1_history.Model):
         w.warm_change = False
         w.stuck = None
         w.eid = 1000
-        for op in hist:
+        w.queued = []     # (eid, holder, index of the op that fired it)
+        w.ghost_hist = list(hist)
+        del ALL[:]
+        for i, op in enumerate(hist):
+            w.opindex = i
             self.apply(w, op)
         return w
 
@@ -396,6 +406,12 @@ class HistModel(e1_history.Model):
         elif k == 'probe':
             w.eid += 1
             fire_probe(comps, op[1], 'e', None, w.eid)
+        elif k == 'fireq':
+            w.eid += 1
+            e = Event.create('e')
+            e.eid = w.eid
+            w.queued.append((w.eid, op[1], getattr(w, 'opindex', 0), e))
+            comps[op[1]].fire(e)
         w.ghost.apply(op)
 
     def cold(self, ghost):
@@ -425,6 +441,8 @@ class HistModel(e1_history.Model):
 
     def check(self, hist, w, st):
         g = w.ghost
+        w._canon = self.canon(w)
+        self.check_queued(hist, w, st)     # first: it reads the global delivery list, which clones built below overwrite
         if w.stuck is not None:
             st.counters['unregister_did_not_complete'] += 1
             return
@@ -454,7 +472,34 @@ class HistModel(e1_history.Model):
         if len(hist) in (3, 5) and len(st.samples) < 3:
             st.sample({'part': 'history', 'hist': [list(o) for o in hist], 'forest': list(g.parent), 'dyn': list(g.dyn)})
 
+    def check_queued(self, hist, w, st):
+        # events fired without a flush: after draining every root, each was delivered to nobody twice, to its holder's own
+        # handler exactly once (unless an unregister happened after the fire: the detach may overtake it), and only to
+        # components that shared a tree with the holder at some point after the fire
+        if w.queued:
+            st.counters['histories_with_events_queued_across_structural_changes'] += 1
+            for _ in range(12):
+                busy = False
+                for c in w.comps:
+                    if c.parent is c and len(c):
+                        c.flush()
+                        busy = True
+                if not busy:
+                    break
+            for eid, holder, idx, _ev in w.queued:
+                got = [(lab, hid) for (i, lab, hid) in ALL if i == eid]
+                if len(got) != len(set(got)):
+                    st.fail('history:queued-event-delivered-twice', 'event fired on c%d (op %d, not flushed) was delivered %r  [history %r]'
+                            % (holder, idx, sorted(got), list(hist)), {'part': 'history', 'n': self.n, 'hist': [list(o) for o in hist], 'probe': holder})
+                later_unreg = any(o[0] == 'unreg' for o in hist[idx + 1:])
+                if not later_unreg and got.count((holder, 'fixed')) != 1:
+                    st.fail('history:queued-event-lost', 'event fired on c%d (op %d, not flushed) reached its own handler %d times: %r  [history %r]'
+                            % (holder, idx, got.count((holder, 'fixed')), sorted(got), list(hist)),
+                            {'part': 'history', 'n': self.n, 'hist': [list(o) for o in hist], 'probe': holder})
+
     def canon(self, w):
+        if hasattr(w, '_canon'):
+            return w._canon
         g = w.ghost
         sig = []
         for c in w.comps:
@@ -472,18 +517,20 @@ class HistModel(e1_history.Model):
                 ent.append((name, tuple('inst%d' % x.label if hasattr(x, 'label') else repr(x) for x in chans),
                             tuple(sorted((getattr(h.__self__, 'label', -1), h.__name__) for h in hs))))
             sig.append((bool(flag), tuple(sorted(ent))))
-        return (tuple(g.parent), tuple(g.dyn), tuple(sig))
+        qsig = tuple(len(c) for c in w.comps)
+        return (tuple(g.parent), tuple(g.dyn), tuple(sig), qsig, tuple((h, sum(1 for o in w.ghost_hist[i + 1:] if o[0] == 'unreg') > 0)
+                                                                      for (_e, h, i, _x) in w.queued))
 
 
 def run(tier, seed, workers):
     st = core.parallel(_work_product, (tier, seed), workers, nparts=workers * 4)
     st.bounds['product_forests'] = sum(1 for _ in product_cases(tier))
     st.bounds['product_fires'] = st.executions
-    plan = [(3, 6)] if tier == 'quick' else [(3, 8), (4, 5)]
+    plan = [(3, 6, False), (3, 4, True)] if tier == 'quick' else [(3, 8, False), (3, 7, True), (4, 5, True)]
     states = transitions = 0
-    for n, depth in plan:
-        hs = e1_history.bfs(HistModel(n), depth, workers, seed, max_states=400000)
-        hs.bounds = {'history_pool%d_%s' % (n, k): v for k, v in hs.bounds.items()}
+    for n, depth, fq in plan:
+        hs = e1_history.bfs(HistModel(n, fq), depth, workers, seed, max_states=400000)
+        hs.bounds = {'history_pool%d%s_%s' % (n, '_with_unflushed_fire' if fq else '', k): v for k, v in hs.bounds.items()}
         states += hs.states
         transitions += hs.transitions
         st.merge(hs)
@@ -507,7 +554,7 @@ def replay(w):
         eff = target if target is not None else chans[w['firer']]
         exp = expected(forest, chans, menu, w['firer'], w['name'], eff)
         return got == exp, 'case %r\ndelivered %r\nexpected  %r' % (w, got, exp)
-    model = HistModel(w['n'])
+    model = HistModel(w['n'], True)
     hist = tuple(tuple(o) for o in w['hist'])
     world = model.build(hist)
     got, _ = fire_probe(world.comps, w['probe'], 'e', None, 1)
